@@ -51,6 +51,26 @@ def main(argv):
 
     from gev import refmodel, workload
 
+    if cfg.get("prelude"):
+        # an EARLIER, different problem in the same process over the same class objects: one field re-declared (the
+        # documented idiom), a short search, then the field declared back as configured. Nothing of it may reach the
+        # search under observation.
+        d2 = grammars.retyped(cfg["desc"], pyrandom.Random(cfg["seed"]))
+        if d2 is not None:
+            try:
+                b2 = grammars.apply_retype(built, d2)
+                g2 = grammars.extract(b2)
+                from geneticengine.algorithms.random_search import RandomSearch
+                from geneticengine.evaluation.budget import EvaluationBudget
+                from geneticengine.problems import SingleObjectiveProblem
+
+                s2 = workload.native(999)
+                rep2 = workload.make_repr(cfg["repr"], g2, "maxdepth", g2.get_min_tree_depth() + 2, s2, gene_length=64)
+                RandomSearch(SingleObjectiveProblem(lambda p: 0.0), EvaluationBudget(6), rep2, s2).search()
+            except BaseException:  # noqa - the earlier problem is only there to leave traces; its own fate is not judged here
+                pass
+            finally:
+                built = grammars.apply_retype(grammars.Built(d2, built.module, built.ns, built.classes, built.start, {}), {k: v for k, v in cfg["desc"].items()})
     g = grammars.extract(built)
     model = refmodel.Model(built.classes, built.start)
     md = g.get_min_tree_depth() + cfg.get("extra_depth", 2)
